@@ -1,5 +1,6 @@
 """C03 - see DESIGN.md section 5; shared machinery in corecommon.py"""
 from checks import corecommon as cc
+from checks import corefam8
 
 PID = "C03"
 LEVEL = cc.LEVEL
@@ -20,6 +21,7 @@ RULE = ("grammar-generated task programs (profiles %s; trees and DAGs of tasks, 
         "least 2 tasks and 1 scheduler flush; distinct by hash of (configuration, programs)" % (", ".join(p for p, _ in MIX)))
 RULE += cc.ASYNCIO_RULE
 RULE += "; plus family reawait (tasks left unfinished by an exception that ESCAPED the scheduler - KeyboardInterrupt / BaseException-only error / SystemExit of a lazy provider, the MAX_TASK_STACK_SIZE guard - are awaited again by a later computation: completed, every step once), judged by direct expectation (Drv/Families6t.lean)"
+RULE += "; plus round-6 family deepfail (chains of 10..4000 tasks - thorough 20000 -, under the interpreter's default recursion limit, each task created inside the body of the one above, whose k-th level FAILS, with / without a handler above: value() raises that instance or returns, every task computed, every body started and resumed once), judged by direct expectation (Drv/Families8.lean)"
 TRUSTED = cc.TRUSTED_CORE + cc.TRUSTED_ASYNCIO
 ASSUMPTIONS = cc.ASSUMPTIONS_CORE
 
@@ -38,6 +40,7 @@ def extra(tier, rng):
     res += cc.asyncio_cases(PID, tier, cc.fork(rng, "aio"))
     res += cc.corefam4.aiostart_cases(tier, cc.fork(rng, "aiostart"))
     res += cc.corefam6t.reawait_cases(tier, cc.fork(rng, "reawait"))
+    res += corefam8.deepfail_cases(tier, cc.fork(rng, "deepfail"))
     return res
 
 
@@ -46,10 +49,14 @@ def plan(tier, seed):
 
 
 def run_case(case):
+    if case.get("special") in corefam8.RUNNERS:
+        return corefam8.run(case, PID)
     return cc.run_case_for(PID, case)
 
 
 def shrink(case):
+    if case.get("special") in corefam8.RUNNERS:
+        return corefam8.shrink(case)
     return cc.shrink_case(case)
 
 
